@@ -463,6 +463,18 @@ func (s *Server) getMetaInfo(namespace string, d core.Digest) ([]byte, error) {
 	var tm metadata.TorrentMeta
 	err := s.cas.GetCacheFileMetadata(d.Hex(), &tm)
 	if os.IsNotExist(err) {
+		if _, serr := s.cas.GetCacheFileStat(d.Hex()); serr == nil {
+			// The blob is cached without its metainfo (a crash between the commit and the metainfo
+			// write): generate it from the cached blob. The backend may not hold the blob yet.
+			log.With("namespace", namespace, "digest", d.Hex()).Debug("Metainfo not found for cached blob, generating")
+			if gerr := s.metaInfoGenerator.Generate(d); gerr != nil {
+				return nil, handler.Errorf("generate metainfo: %s", gerr)
+			}
+			if err := s.cas.GetCacheFileMetadata(d.Hex(), &tm); err != nil {
+				return nil, handler.Errorf("get cache metadata: %s", err)
+			}
+			return tm.Serialize()
+		}
 		log.With("namespace", namespace, "digest", d.Hex()).Debug("Metainfo not found in cache, initiating blob download")
 		return nil, s.startRemoteBlobDownload(namespace, d, true)
 	}
